@@ -920,6 +920,8 @@ pub fn to_vec_custom(value: &Value, options: Options) -> io::Result<Vec<u8>> {
 #[inline]
 pub fn to_string(value: &Value) -> io::Result<String> {
     let vec = to_vec(value)?;
+    #[cfg(feature = "verif-hooks")]
+    crate::verif::check_utf8(2, &vec);
     let string = unsafe {
         // We do not emit invalid UTF-8.
         String::from_utf8_unchecked(vec)
@@ -931,6 +933,8 @@ pub fn to_string(value: &Value) -> io::Result<String> {
 #[inline]
 pub fn to_string_custom(value: &Value, options: Options) -> io::Result<String> {
     let vec = to_vec_custom(value, options)?;
+    #[cfg(feature = "verif-hooks")]
+    crate::verif::check_utf8(3, &vec);
     let string = unsafe {
         // We do not emit invalid UTF-8.
         String::from_utf8_unchecked(vec)
